@@ -1,2 +1,298 @@
+"""C16 radial leg: PaintRadialGradient.apply_transform / _decompose_uniform_transform.
+
+picosvg's Affine2D.decompose_scale / decompose_translation are third-party code whose
+NRA encoding is intractable (DESIGN 1.1(3)); they are replaced by *contract stubs*
+(fresh values constrained by the documented contract) and the contracts are validated
+concretely against the real picosvg on the repo's test transforms.
+"""
+from __future__ import annotations
+
+import math
+from fractions import Fraction
+
+import z3
+
+from symx import core, shims
+from symx.runner import Job
+from oracle import paint_semantics as ps
+
+from nanoemoji import paint as P
+from nanoemoji import fixed
+from picosvg.svg_transform import Affine2D
+from picosvg.geometric_types import Point
+
+_real_decompose_scale = Affine2D.decompose_scale
+_real_decompose_translation = Affine2D.decompose_translation
+
+
+def stub_decompose_scale(self):
+    """Contract: scale = diag(|col0|, |col1|); (scale, remaining) compose LTR to self."""
+    if not any(isinstance(v, core.SymNum) for v in self):
+        return _real_decompose_scale(self)
+    sx = core.sym_hypot(self.a, self.b)
+    sy = core.sym_hypot(self.c, self.d)
+    scale = Affine2D(sx, 0, 0, sy, 0, 0)
+    rem = Affine2D(*[core.fresh_real("rem") for _ in range(6)])
+    c = core.ctx()
+    for got, want in zip(ps.mul(tuple(rem), tuple(scale)), tuple(self)):
+        c.add(core.as_term(got) == core.as_term(want), definitional=True)
+    return scale, rem
+
+
+def stub_decompose_translation(self):
+    """Contract: (translation, self with e=f=0) compose LTR to self; identity when e,f ~ 0."""
+    if not any(isinstance(v, core.SymNum) for v in self):
+        return _real_decompose_translation(self)
+    prime = self._replace(e=0, f=0)
+    if self.almost_equals(prime):
+        return Affine2D.identity(), prime
+    x, y = core.fresh_real("trx"), core.fresh_real("try")
+    c = core.ctx()
+    c.add(core.as_term(self.a * x + self.c * y) == core.as_term(self.e), definitional=True)
+    c.add(core.as_term(self.b * x + self.d * y) == core.as_term(self.f), definitional=True)
+    return Affine2D(1, 0, 0, 1, x, y), prime
+
+
+def radial_shims():
+    return shims.std_shims() + [
+        shims.Shim("picosvg.svg_transform.Affine2D", "decompose_scale", stub_decompose_scale, "contract stub (third-party NRA-intractable)"),
+        shims.Shim("picosvg.svg_transform.Affine2D", "decompose_translation", stub_decompose_translation, "contract stub (third-party NRA-intractable)"),
+    ]
+
+
+class _ClsShim(shims.Shim):
+    pass
+
+
+def _install():
+    import contextlib
+
+    @contextlib.contextmanager
+    def cm():
+        with shims.installed(shims.std_shims()):
+            Affine2D.decompose_scale = stub_decompose_scale
+            Affine2D.decompose_translation = stub_decompose_translation
+            try:
+                yield
+            finally:
+                Affine2D.decompose_scale = _real_decompose_scale
+                Affine2D.decompose_translation = _real_decompose_translation
+
+    return cm()
+
+
+def validate_contracts(jc):
+    """The stubs' contracts hold for the real picosvg on concrete transforms."""
+    tests = [
+        Affine2D(2, 0, 0, 2, 10, 20), Affine2D(1, 0, 0, -1, 0, 950), Affine2D(0.5, 0.1, -0.2, 1.5, 3, 4),
+        Affine2D(0, 1, -1, 0, 5, 5), Affine2D(8, 0, 0, -8, 0, 1024), Affine2D(3, 1, 2, -4, -7, 9),
+        Affine2D(1.2, 0, 0, 0.7, 100, -30),
+    ]
+    for T in tests:
+        scale, rem = _real_decompose_scale(T)
+        comp = Affine2D.compose_ltr((scale, rem))
+        if not comp.almost_equals(T, 1e-6) or scale.b != 0 or scale.c != 0:
+            raise core.HarnessError(f"decompose_scale contract violated by picosvg on {T}")
+        if abs(scale.a - math.hypot(T.a, T.b)) > 1e-9 or abs(scale.d - math.hypot(T.c, T.d)) > 1e-9:
+            raise core.HarnessError(f"decompose_scale contract (column norms) violated on {T}")
+        tr, prime = _real_decompose_translation(T)
+        comp = Affine2D.compose_ltr((tr, prime))
+        if not comp.almost_equals(T, 1e-6) or tuple(prime)[:4] != tuple(T)[:4] or (prime.e, prime.f) != (0, 0):
+            raise core.HarnessError(f"decompose_translation contract violated by picosvg on {T}")
+        jc.concrete_validations += 2
+
+
+def replay_radial(inp):
+    g = lambda n: float(inp[n])
+    grad = P.PaintRadialGradient(c0=Point(g("c0x"), g("c0y")), c1=Point(g("c1x"), g("c1y")), r0=g("r0"), r1=g("r1"))
+    T = Affine2D(*[g(f"t{i}") for i in range(6)])
+    try:
+        out = grad.apply_transform(T)
+    except OverflowError as e:
+        # legitimate iff some uniform-mapped field is out of range: recompute independently
+        s = max(math.hypot(T.a, T.b), math.hypot(T.c, T.d))
+        if max(g("r0"), g("r1")) * s > 65535:
+            return None
+        return {"maybe_spurious_overflow": repr(e)} if inp.get("_expect_ok") else None
+    except Exception as e:
+        return {"raised": repr(e), "T": list(T)}
+    M = ps.IDENT
+    p = out
+    while not isinstance(p, P.PaintRadialGradient):
+        M = ps.mul(M, ps.paint_matrix(p))
+        p = p.paint
+    # compare colour fields numerically: N = M^-1 ∘ T must map circle i -> circle i'
+    Mi = tuple(Affine2D(*M).inverse())
+    N = ps.mul(Mi, tuple(T))
+    k = math.hypot(N[0], N[1])
+    errs = [
+        abs(math.hypot(N[2], N[3]) - k), abs(N[0] * N[2] + N[1] * N[3]),
+        abs(ps.apply(N, grad.c0)[0] - p.c0[0]), abs(ps.apply(N, grad.c0)[1] - p.c0[1]),
+        abs(ps.apply(N, grad.c1)[0] - p.c1[0]), abs(ps.apply(N, grad.c1)[1] - p.c1[1]),
+        abs(p.r0 - k * grad.r0), abs(p.r1 - k * grad.r1),
+    ]
+    scale = max(1.0, k, abs(p.c0[0]), abs(p.c0[1]), abs(p.c1[0]), abs(p.c1[1]), p.r1)
+    if max(errs) > 1e-4 * scale:
+        return {"gradient": repr(grad), "T": list(T), "out": repr(out), "errs": errs}
+    for name, v, lo, hi in (("c0x", p.c0[0], -32768, 32767), ("c0y", p.c0[1], -32768, 32767), ("c1x", p.c1[0], -32768, 32767),
+                            ("c1y", p.c1[1], -32768, 32767), ("r0", p.r0, 0, 65535), ("r1", p.r1, 0, 65535)):
+        if not (lo <= v <= hi):
+            return {"silently_accepted_out_of_range": name, "value": v}
+    return None
+
+
+_real_inverse = Affine2D.inverse
+_real_check_overflows = P.PaintRadialGradient.check_overflows
+
+
+def stub_inverse(self):
+    """Contract: M·M^-1 = I (six fresh reals; no division reaches the solver).
+    Valid for non-degenerate M, which the harness assumes (|det| >= detmin)."""
+    if not any(isinstance(v, core.SymNum) for v in self):
+        return _real_inverse(self)
+    inv = Affine2D(*[core.fresh_real("inv") for _ in range(6)])
+    c = core.ctx()
+    for got, want in zip(ps.mul(tuple(self), tuple(inv)), ps.IDENT):
+        c.add(core.as_term(got) == core.as_term(want), definitional=True)
+    return inv
+
+
+def stub_transformed(transform, target):
+    """Contract proved by job 'transformed' (A1): the emitted chain denotes `transform`
+    within 2^-14. Replaced by an opaque node denoting exactly `transform`."""
+    return P.PaintTransform(paint=target, transform=tuple(transform))
+
+
+class Recorder:
+    def __init__(self, fn):
+        self.fn = fn
+        self.calls = []
+
+    def __call__(self, *a, **k):
+        r = self.fn(*a, **k)
+        self.calls.append((a, k, r))
+        return r
+
+
+def job_radial(jc):
+    """Algebraic stage: rounding shimmed to identity, exact equalities (DESIGN 1.1)."""
+    jc.encode(P.PaintRadialGradient.apply_transform, P._decompose_uniform_transform)
+    validate_contracts(jc)
+    L = jc.params.get("L", 1000)
+    detmin = jc.params.get("detmin", Fraction(1, 100))
+    names = ["c0x", "c0y", "c1x", "c1y", "r0", "r1"] + [f"t{i}" for i in range(6)]
+    rec = Recorder(P._decompose_uniform_transform)
+
+    def body():
+        r = core.real
+        c0 = Point(r("c0x", -L, L), r("c0y", -L, L))
+        c1 = Point(r("c1x", -L, L), r("c1y", -L, L))
+        r0, r1 = r("r0", 0, L), r("r1", 0, L)
+        T = Affine2D(*[r(f"t{i}", -L, L) for i in range(6)])
+        d = T.a * T.d - T.b * T.c
+        core.assume(core.sym_or(d >= detmin, d <= -detmin))
+        grad = P.PaintRadialGradient(c0=c0, c1=c1, r0=r0, r1=r1)
+        rec.calls.clear()
+        out = grad.apply_transform(T)
+        (_, _, (U, rem)) = rec.calls[-1]
+        return grad, T, out, U
+
+    extra_shims = [
+        shims.Shim("nanoemoji.paint", "transformed", stub_transformed, "compositional: contract proved in job transformed"),
+        shims.Shim("nanoemoji.paint", "_decompose_uniform_transform", rec, "recorder (calls through to the real function)"),
+    ]
+    with shims.installed(shims.std_shims() + extra_shims):
+        Affine2D.decompose_scale = stub_decompose_scale
+        Affine2D.decompose_translation = stub_decompose_translation
+        Affine2D.inverse = stub_inverse
+        P.PaintRadialGradient.check_overflows = lambda self: self
+        try:
+            results = jc.explore(body, round_mode="identity", feas_timeout_ms=1500)
+        finally:
+            Affine2D.decompose_scale = _real_decompose_scale
+            Affine2D.decompose_translation = _real_decompose_translation
+            Affine2D.inverse = _real_inverse
+            P.PaintRadialGradient.check_overflows = _real_check_overflows
+    inp = {n: core.SymNum(z3.Real(n)) for n in names}
+    tol = Fraction(1, 10**6)
+    for r in results:
+        if not jc.no_exception(r, inp, replay_radial, "C16:radial:raises"):
+            continue
+        grad, T, out, U = r.value
+        M = ps.IDENT
+        p = out
+        while not isinstance(p, P.PaintRadialGradient):
+            M = ps.mul(M, ps.paint_matrix(p))
+            p = p.paint
+        cls = "translation-dropped" if (not isinstance(U.e, core.SymNum) and U.e == 0 and not isinstance(U.f, core.SymNum) and U.f == 0) else "translated"
+        jc.reach(r, cls)
+        # exists similarity U (witness = the uniform part the code computed) such that
+        #  (A) wrapper ∘ U == T  (within tol: a translation below 1e-9 is dropped by picosvg)
+        #  (B) U is a similarity and maps circle i onto emitted circle i exactly
+        A = ps.aff_eq(ps.mul(M, tuple(U)), tuple(T), tol)
+        jc.prove(r, A, "A3 radial: residual ∘ uniform == original affine", inp, replay_radial, key="C16:radial:colour", timeout_ms=60000)
+        a, b, c, d, e, f = U
+        k2 = a * a + b * b
+        Bp = z3.And(
+            core.eq_tol(a * a + b * b, c * c + d * d, 0), core.eq_tol(a * c + b * d, 0, 0),
+            ps.pt_eq(ps.apply(tuple(U), grad.c0), p.c0), ps.pt_eq(ps.apply(tuple(U), grad.c1), p.c1),
+            core.eq_tol(p.r0 * p.r0, k2 * grad.r0 * grad.r0, 0), core.eq_tol(p.r1 * p.r1, k2 * grad.r1 * grad.r1, 0),
+            core.as_term(p.r0) >= 0, core.as_term(p.r1) >= 0,
+        )
+        jc.prove(r, Bp, "A3 radial: uniform part is a similarity mapping circles onto emitted circles", inp, replay_radial,
+                 key="C16:radial:colour", timeout_ms=60000)
+        jc.sample(cls=cls, U=[repr(x) for x in U][:4])
+    jc.expect_reached("translated", "translation-dropped")
+
+
+def replay_radial_overflow(inp):
+    g = lambda n: float(inp[n])
+    grad = P.PaintRadialGradient(c0=Point(g("c0x"), g("c0y")), c1=Point(g("c1x"), g("c1y")), r0=g("r0"), r1=g("r1"))
+    oob = any(not (-32768 <= v <= 32767) for v in (g("c0x"), g("c0y"), g("c1x"), g("c1y"))) or any(not (0 <= v <= 65535) for v in (g("r0"), g("r1")))
+    try:
+        grad.check_overflows()
+        raised = False
+    except OverflowError:
+        raised = True
+    if raised != oob:
+        return {"gradient": repr(grad), "raised": raised, "out_of_range": oob}
+    return None
+
+
+def job_radial_overflow(jc):
+    """check_overflows raises exactly when a field does not fit int16/uint16; and
+    apply_transform consults it (wiring, concrete)."""
+    jc.encode(P.PaintRadialGradient.check_overflows)
+    names = ["c0x", "c0y", "c1x", "c1y", "r0", "r1"]
+    W = 200000
+
+    def body():
+        r = core.real
+        grad = P.PaintRadialGradient(c0=Point(r("c0x", -W, W), r("c0y", -W, W)), c1=Point(r("c1x", -W, W), r("c1y", -W, W)), r0=r("r0", -W, W), r1=r("r1", -W, W))
+        grad.check_overflows()
+        return grad
+
+    with shims.installed(shims.std_shims()):
+        results = jc.explore(body, catch=(OverflowError,))
+    inp = {n: core.SymNum(z3.Real(n)) for n in names}
+    fits = z3.And(*[z3.And(inp[n].t >= fixed.MIN_INT16, inp[n].t <= fixed.MAX_INT16) for n in names[:4]],
+                  *[z3.And(inp[n].t >= fixed.MIN_UINT16, inp[n].t <= fixed.MAX_UINT16) for n in names[4:]])
+    for r in results:
+        if r.exc is not None:
+            jc.reach(r, "OverflowError")
+            jc.prove(r, z3.Not(fits), "radial OverflowError only when a field is out of range", inp, replay_radial_overflow, key="C16:radial:overflow-spurious")
+        else:
+            jc.reach(r, "ok")
+            jc.prove(r, fits, "radial out-of-range field never accepted silently", inp, replay_radial_overflow, key="C16:radial:overflow-missed")
+    jc.expect_reached("ok", "OverflowError")
+    # wiring: apply_transform(check_overflows=True) reaches check_overflows on its result
+    big = P.PaintRadialGradient(c0=Point(0, 0), c1=Point(0, 0), r0=0.0, r1=40000.0)
+    try:
+        big.apply_transform(Affine2D(2, 0, 0, 2, 0, 0))
+        jc.violation("C16:radial:overflow-wiring", "apply_transform consults check_overflows", {"r1": 40000, "scale": 2}, {"no OverflowError": True})
+    except OverflowError:
+        jc.concrete_validations += 1
+
+
 def jobs(tier):
-    return []
+    return [Job("radial.apply_transform", job_radial), Job("radial.check_overflows", job_radial_overflow)]
